@@ -23,8 +23,9 @@ Three layers (DESIGN.md §5/C01, as built):
   every cycle of a stimulus of any length, by induction over the stimulus, for node rewrites combined with register re-declarations
   that agree on defined evaluations; `foldRegisterMuxEnableLoops` (all four variants) is proved as such a re-declaration at value level.
 * Masking (C01/Masking.lean) — `removeIrrelevantMuxes`: rewiring a consumer past `mux(c; a, b)` to `a` leaves every node outside the
-  tainted cone unchanged, for netlists of any size, provided every way out of the cone enters a later mux with an equal condition at data
-  input 0 (a tainted *selector* masks nothing: the defect repaired by ef1e091 violates exactly this premise).
+  tainted cone unchanged, for netlists of any size, provided every way out of the cone enters a later mux that does not select the tainted
+  data input when the taint is real (equal condition / same port, negated condition / other port; a tainted *selector* masks nothing: the
+  defect repaired by ef1e091 violates exactly this premise). All four variants of the pass.
 Passes without a rule theorem (mergeBinaryMuxChain, retiming, memory detection, tech mapping, export
 preparation), multi-clock designs and memories are covered by the trace check only.
 -/
@@ -116,14 +117,17 @@ theorem propagateConstants_rule (k : NodeKind) (w : Nat) (insU ins : Ins) (h : I
 
 /-! ### removeIrrelevantMuxes: masked rewiring -/
 
-/-- `removeIrrelevantMuxes`, variant "only input 0 is relevant further on": `m = mux(c; a, b)`, a consumer `K` of `m` is rewired to `a`.
-    If every node outside the tainted set `S` (K and whatever is computed from it) either reads no tainted node or is a two-input mux
-    that reads taint only at data input 0 and whose selector has the value of `c`, then in every environment in which `c` is a defined
-    bit and `a` has the mux's width every node outside `S` — in particular every output pin — keeps its value. Any netlist size. -/
-theorem removeIrrelevantMuxes_netlist {old new : List NetNode} {S : Nat → Bool} {k m c a b w : Nat} {ty : CType} {K : NetNode} {port : Nat}
-    (h : MaskedRewire old new S k m c a b w ty K port) (env : Env) (he : MaskEnv env old S k c a w) :
+/-- `removeIrrelevantMuxes`, all four variants: `m = mux(c; d0, d1)`, a consumer `K` of `m` is rewired to data input `p` of the mux.
+    `S` = the tainted set (`K` and whatever is computed from it). Structure (`MaskedRewire`): every node outside `S` either reads no tainted
+    node or is a two-input mux with an untainted selector. Environment (`MaskEnv`): `c` is a defined bit `cb`, the bypassed input has the
+    mux's width, and when the taint is real (`cb ≠ p`) every later mux that reads taint has a defined selector that selects an untainted data
+    input — as is the case when its condition equals `c` and the taint sits at data input `p`, or its condition is `¬c` and the taint sits at
+    the other data input (what the pass establishes with C14's `isEqualTo` / `isNegationOf`). Then every node outside `S` — in particular
+    every output pin — keeps its value. Any netlist size, any shape of the tainted cone. A tainted *selector* is not admitted
+    (`S c' = false`): the defect repaired by ef1e091. -/
+theorem removeIrrelevantMuxes_netlist {old new : List NetNode} {S : Nat → Bool} {k m c d0 d1 w : Nat} {ty : CType} {K : NetNode} {port : Nat}
+    {p cb : Bool} (h : MaskedRewire old new S k m c d0 d1 w ty K port p) (env : Env) (he : MaskEnv env old S k c d0 d1 w p cb) :
     ∀ j, S j = false → (evalNet env new).getD j none = (evalNet env old).getD j none := masked_rewire_defined h env he
-
 
 /-- in0 = c ; in1 = a ; in2 = b ; 3: m = mux(c; a, b) ; 4: K = NOT m ; 5: mux(c; K, b) -/
 def mOld : List NetNode :=
@@ -145,7 +149,7 @@ theorem mTopo : Topo mOld := by
   | 5, hj => cases hj; simp at hi; omega
   | j+6, hj => simp [mOld] at hj
 
-theorem mInstance : MaskedRewire mOld mNew mS 4 3 0 1 2 4 .bitvec ⟨.node (.logic .NOT) .bitvec, 4, [some 3]⟩ 0 where
+theorem mInstance : MaskedRewire mOld mNew mS 4 3 0 1 2 4 .bitvec ⟨.node (.logic .NOT) .bitvec, 4, [some 3]⟩ 0 false where
   len := rfl
   topo := mTopo
   same := by
@@ -166,21 +170,30 @@ theorem mInstance : MaskedRewire mOld mNew mS 4 3 0 1 2 4 .bitvec ⟨.node (.log
     match j, hn with
     | 5, hn =>
       cases hn
-      exact Or.inr ⟨.bitvec, 4, 0, some 4, 2, rfl, rfl, rfl, by omega⟩
+      exact Or.inr ⟨.bitvec, 4, 0, some 4, some 2, rfl, rfl⟩
     | j+6, hn => simp [mOld] at hn
     | 0, _ | 1, _ | 2, _ | 3, _ | 4, _ => omega
 
 /-- the premises are satisfiable: the concrete rewiring above in an environment where the taint is real (`c = 1`, `a ≠ b`) -/
-example : MaskEnv [[B4.t], BV4.ofNat 4 5, BV4.ofNat 4 9] mOld mS 4 0 1 4 where
-  cdef := Or.inl rfl
+theorem mEnv : MaskEnv [[B4.t], BV4.ofNat 4 5, BV4.ofNat 4 9] mOld mS 4 0 1 2 4 false true where
+  cval := rfl
   awidth := ⟨BV4.ofNat 4 5, rfl, rfl⟩
   conds := by
-    intro j ty' w' c' d0 d1 hj hn _ _
+    intro _ j ty' w' c' e0 e1 hj hn _ _
     match j, hn with
-    | 5, hn => cases hn; rfl
+    | 5, hn =>
+      cases hn
+      refine ⟨true, rfl, ?_⟩
+      intro i hi
+      simp only [pick, if_true, Option.some.injEq] at hi
+      subst hi; rfl
     | j+6, hn => simp [mOld] at hn
     | 0, _ | 1, _ | 2, _ | 3, _ | 4, _ => omega
 
+/-- … and the conclusion on it: the output mux (node 5) has the same value although node 4 differs -/
+example : (evalNet [[B4.t], BV4.ofNat 4 5, BV4.ofNat 4 9] mNew).getD 5 none = (evalNet [[B4.t], BV4.ofNat 4 5, BV4.ofNat 4 9] mOld).getD 5 none ∧
+    (evalNet [[B4.t], BV4.ofNat 4 5, BV4.ofNat 4 9] mNew).getD 4 none ≠ (evalNet [[B4.t], BV4.ofNat 4 5, BV4.ofNat 4 9] mOld).getD 4 none :=
+  ⟨removeIrrelevantMuxes_netlist mInstance _ mEnv 5 rfl, by decide⟩
 
 /-! ### clocked circuits: every cycle of a stimulus of any length -/
 
